@@ -15,10 +15,10 @@ package main
 // Everything else - in particular the constructor's raw input - may contain '+'.
 
 import (
-	"os"
 	"fmt"
 	"go/token"
 	"go/types"
+	"os"
 	"regexp/syntax"
 	"sort"
 	"strings"
